@@ -46,7 +46,7 @@ try:
         res['tests'] = out.strip().split('\n')[0]
         res['tests_ok'] = rc == 0
     os.makedirs(vf)
-    sh('rsync -a --exclude .git --exclude evidence/replays /verif/ %s/' % vf)
+    sh('rsync -a --exclude .git --exclude evidence/replays --exclude .scratch /verif/ %s/' % vf)
     rc, out = sh('SPYNE_REPO=%s ./check %s --tier quick' % (wt, prop), cwd=vf, timeout=3600)
     lines = [l for l in out.split('\n') if l.startswith('VIOLATION') or l.startswith('KNOWN-FINDING') or 'INFRA' in l]
     res['check_rc'] = rc
@@ -84,4 +84,6 @@ if ok:
                  'check_result': {k: res.get(k) for k in ('check_rc', 'caught', 'caught_with_input', 'check_lines')}})
     json.dump(meta, open(os.path.join(dst, 'meta.json'), 'w'), indent=1)
 res.pop('rebased_patch', None)
-print(json.dumps({k: v for k, v in res.items() if k not in ('first_replay',)}, indent=1)[:2500])
+res['check_lines'] = [l[:160] for l in res.get('check_lines', [])]
+res['check_tail'] = res.get('check_tail', '')[-300:]
+print(json.dumps({k: v for k, v in res.items() if k not in ('first_replay', 'demo_changed_tail')}, indent=1))
